@@ -23,7 +23,7 @@ Proof.
   intros [F1 F2 F3 F4 F5 F6 Fb] Hw (P1 & P2 & P3 & P4).
   unfold I_index. rewrite F1, F2, F3, F4, F5. splits.
   - intros k b' Hin. apply In_get in Hin; [|exact Hw].
-    destruct (bsim_get_rev _ _ _ _ Fb Hin) as (b & Eb & Hr & Ho & Hav).
+    destruct (bsim_get_rev _ _ _ _ Fb Hin) as (b & Eb & Hr & Ho & Hav & _).
     apply get_In in Eb. destruct (P1 k b Eb) as (A1 & A2 & A3 & A4 & A5 & A6 & A7).
     rewrite Hr, Ho. splits; auto.
   - intros o svc p Hin. destruct (P2 _ _ _ Hin) as (b & Eb & Hob).
